@@ -611,6 +611,38 @@ def value_paths(F, rep):
                     con2 = peel(c2["args"][2])
                     if con2.get("args") and any(tc.local_hid(a) == node for a in con2["args"]):
                         back = True
+    # .. or the function that derives the quotient from the dividend (the one DivRes replays) records, when the dividend is still
+    # unknown, a constraint *on the dividend* that names the quotient
+    replay = None
+    fcc = F.fn(TC + "check_constraints")
+    for arm, alt in tc.arm_of(F, fcc, TCM + "Constraint", "DivRes"):
+        for c in nodes(arm["body"], "MethodCall"):
+            if (callee(c) or "").startswith(TC) and callee(c) != TC + "check_constraints":
+                replay = callee(c)
+    if replay and not back:
+        fdr = F.fn(replay)
+        rep.analysed(fdr)
+        ty_params = [b for prm in fdr["params"] if prm["ty"].strip() in ("sylt_common::TyID", "usize", "TyID") for b in pat_bindings(prm["pat"])]
+        for m in nodes(fn_body(fdr), "Match"):
+            for arm in m["arms"]:
+                for alt in pat_alternatives(arm["pat"]):
+                    p_ = pat_strip(alt)
+                    subs = p_.get("pats") if p_.get("k") == "Tuple" else None
+                    if not subs or not (pat_variant(subs[0]) or "").endswith("Type::Unknown"):
+                        continue
+                    for c in nodes(arm["body"], "MethodCall"):
+                        if callee(c) == TC + "add_constraint" and len(ty_params) >= 2:
+                            on = tc.local_hid(c["args"][0])
+                            con = peel(c["args"][2])
+                            names = [tc.local_hid(a_) for a_ in (con.get("args") or [])]
+                            fl_dr = Flow(fdr, fn_body(fdr))
+                            d0, d1 = fl_dr.derived({ty_params[0]["hid"]}), fl_dr.derived({ty_params[1]["hid"]})
+                            # (`let (a, b) = (self.find(a), self.find(b))` keeps the roles under the same names)
+                            nm_on = peel(c["args"][0]).get("name")
+                            nm_pl = [peel(a_).get("name") for a_ in (con.get("args") or [])]
+                            if on in d0 and nm_on == ty_params[0]["name"] and \
+                                    any(x in d1 and n_ == ty_params[1]["name"] for x, n_ in zip(names, nm_pl)):
+                                back = True
     rep.ob("VALUE-PATH", "expression|Div|quotient-follows-dividend", back,
            "the dividend carries a constraint naming the quotient, so refining the dividend re-derives the quotient's type" if back else
            "`c := a / 2` records DivRes(a) on the quotient only; when `a` becomes known later (a parameter at a call) nothing "
